@@ -193,10 +193,19 @@ pub fn guard<T>(what: &str, f: impl FnOnce() -> T) -> Result<T, Failure> {
         Err(_) => {
             let loc = PANIC_LOC.with(|p| p.borrow_mut().take()).unwrap_or_else(|| "?".into());
             // a panic outside the library under test is a harness bug, never a violation
-            let in_repo = loc.starts_with("/repo/") || loc.contains("/repo/src/");
+            // (the library is /repo, or a scratch copy named *-repo when mutants are tried)
+            let in_repo = loc.starts_with("/repo/") || loc.contains("repo/src/");
             // strip the repo prefix for stability
-            let short = loc.replace("/repo/", "");
+            let short = match loc.find("repo/src/") {
+                Some(i) if in_repo => loc[i + 5..].to_string(),
+                _ => loc.replace("/repo/", ""),
+            };
             let site = short.split(' ').next().unwrap_or("?").to_string();
+            // `x.to_string()` panics inside std when a Display impl returns Err: the impls under
+            // test are the library's (the harness formats its own data with plain functions)
+            if !in_repo && loc.contains("a Display implementation returned an error unexpectedly") {
+                return Err(Failure { sig: "panic@Display".into(), msg: format!("panic in {}: a library value's Display implementation returned an error ({})", what, short) });
+            }
             if !in_repo {
                 return Err(Failure { sig: "harness-panic".into(), msg: format!("panic in harness code ({}): {}", what, short) });
             }
